@@ -151,6 +151,48 @@ def stepped(items, build):
     return s.complete()
 
 
+def interleaved(chunk_lists, make_op, sched):
+    """Several subscriptions alive at the same time: stream k is pushed through its own Subject and make_op(k) (the
+    caller decides whether operator objects are shared); `sched` (ints) picks which stream delivers its next chunk.
+    Returns one Result per stream."""
+    n = len(chunk_lists)
+    subjects = [Subject() for _ in range(n)]
+    results = [Result() for _ in range(n)]
+    buf = io.StringIO()
+    with contextlib.redirect_stdout(buf):
+        for k in range(n):
+            r = results[k]
+
+            def on_next(v, r=r):
+                r.items.append(snapshot(v))
+
+            def on_error(e, r=r):
+                if r.error is None:
+                    r.error = e
+
+            def on_completed(r=r):
+                r.completed += 1
+            try:
+                subjects[k].pipe(make_op(k)).subscribe(on_next=on_next, on_error=on_error, on_completed=on_completed)
+            except Exception as e:
+                r.raised = e
+        pos = [0] * n
+        sched = list(sched)
+        while any(pos[k] <= len(chunk_lists[k]) for k in range(n)):
+            live = [k for k in range(n) if pos[k] <= len(chunk_lists[k])]
+            k = live[(sched.pop(0) if sched else 0) % len(live)]
+            try:
+                if pos[k] < len(chunk_lists[k]):
+                    subjects[k].on_next(chunk_lists[k][pos[k]])
+                else:
+                    subjects[k].on_completed()
+            except Exception as e:
+                if results[k].raised is None:
+                    results[k].raised = e
+            pos[k] += 1
+    return results
+
+
 # ---------------------------------------------------------------------------
 # tap operators (identity MuxObservable operators that record what passes)
 
